@@ -12,17 +12,30 @@ order equal scaffold names and order.
 End-to-end part: the pretext-to-asm command (click CliRunner) on a generated FASTA and a small Pretext AGP
 with --output x.fa: every *.fa written equals its companion *.agp (read here by splitting on tabs) applied to
 the model of the input FASTA, AGP object lengths equal record lengths, record names are unique.
+
+Left-over index files part: "the input FASTA" of the statement is the file as it is *now*.  The same two routes
+(FastaIndex.auto_load + FastaStream, and the command) are run with <fasta>.fai / <fasta>.agp already lying beside
+the FASTA in every freshness state: each file absent / older / same time stamp / newer than the FASTA (times set
+with os.utime on a FASTA 0.9 s into a second, so that "older within the same second" occurs), and written by an
+indexing run either on the current content or on earlier content of the same path (re-wrapped, header of a
+different length, other residues/lengths, fewer records).  Only when both files are strictly newer than the FASTA
+may they be used, so only then are they required to stem from the current content; in every other state their
+content is arbitrary.  The oracle is the one above, over the model of the current content; an error is an
+allowed outcome of a load, but the command must not fail only because such files are present.
 """
 
 import io
+import os
+import pathlib
 import random
+import shutil
 
 from tola.assembly.assembly import Assembly
 from tola.fasta.index import FastaIndex, index_fasta_file
 from tola.fasta.stream import FastaStream
 
 from . import fasta_gen as G
-from .common import Collector, scaffold_from
+from .common import Collector, row_spec, scaffold_from
 
 R1 = b"AcgRtNnYKtGC"  # 12 = 3 x 4 = 2 x 6: exact multiple of widths 1,2,3,4
 R2 = b"tTGmc"  # 5: one full line at width 5
@@ -73,9 +86,15 @@ def replay(inp):
                 case, ptxt, _ = G.random_cli_case(random.Random(inp["gen"]), big=True)
             else:
                 case, ptxt = G.FastaCase.from_spec(inp["case"]), inp["pretext"]
-            msgs, _ = check_cli(d, case, ptxt)
+            if "cache" in inp:
+                msgs, _ = check_cli_cached(d, case, ptxt, inp["cache"])
+            else:
+                msgs, _ = check_cli(d, case, ptxt)
             return msgs[0] if msgs else None
         case = G.FastaCase.from_spec(inp["case"])
+        if inp["kind"] == "cached-stream":
+            msgs, _ = check_cached_stream(d, case, inp["cache"], inp["buffer"], inp["line_length"])
+            return msgs[0] if msgs else None
         path = d / "r.fa"
         case.write(path)
         try:
@@ -92,7 +111,11 @@ def replay(inp):
 
 def check_cli(tmp, case, pretext_text):
     """-> (messages, number of FASTA records checked); a non-zero exit status is an allowed outcome"""
-    res = G.run_pretext_cli(tmp, case.data(), pretext_text, output="x.fa")
+    return judge_cli(G.run_pretext_cli(tmp, case.data(), pretext_text, output="x.fa"), case)
+
+
+def judge_cli(res, case):
+    """the end-to-end clauses on the files of one finished run against the model of the input FASTA"""
     if res["exception"]:
         return [f"pretext-to-asm raised {res['exception']} (partial output left behind)"], 0
     if res["exit_code"] != 0:
@@ -134,6 +157,237 @@ def check_cli(tmp, case, pretext_text):
     return msgs, n_records
 
 
+# ----------------------------------------------------------------------------------------------------------
+# index files left beside the FASTA by earlier runs
+#
+# cache = {"fasta_ns": time stamp of the FASTA, "old": spec of the earlier content of the path (or None),
+#          "fai": None (absent) | [content, delta_ns], "agp": likewise}   content: "cur" | "old"
+#          delta_ns: time stamp of that file minus the time stamp of the FASTA
+
+FASTA_NS = 1_700_000_000_900_000_000  # 0.9 s into a second
+SEC = 1_000_000_000
+DELTA = {"older": (-SEC // 2, -3600 * SEC, -SEC // 1000, -3 * SEC), "equal": (0,), "newer": (SEC // 10, 3600 * SEC, 2 * SEC)}
+
+
+def cache_paths(path):
+    return pathlib.Path(str(path) + ".fai"), pathlib.Path(str(path) + ".agp")
+
+
+def must_be_rebuilt(cache):
+    """statement: index files that are missing or not strictly newer than the FASTA are not used"""
+    return any(c is None or c[1] <= 0 for c in (cache["fai"], cache["agp"]))
+
+
+def legitimate(cache):
+    """files that may be used (both strictly newer) are those an indexing run wrote for the current content"""
+    return must_be_rebuilt(cache) or all(c[0] == "cur" for c in (cache["fai"], cache["agp"]))
+
+
+def describe_cache(cache):
+    parts = []
+    for key in ("fai", "agp"):
+        c = cache[key]
+        if c is None:
+            parts.append(f"no .{key}")
+            continue
+        what = "the current content" if c[0] == "cur" else "earlier content of the same path"
+        when = "with the FASTA's time stamp" if c[1] == 0 else f"{abs(c[1]) / SEC:g} s {'newer' if c[1] > 0 else 'older'} than the FASTA"
+        parts.append(f".{key} written for {what}, {when}")
+    return "; ".join(parts)
+
+
+def indexing_run(path, case):
+    """what an earlier run left behind: the content is written to `path` and indexed -> (.fai bytes, .agp bytes)"""
+    G.remove_with_caches(path)
+    case.write(path)
+    fi = FastaIndex(path)
+    try:
+        fi.run_indexing()
+    finally:
+        close_index(fi)
+    return tuple(p.read_bytes() for p in cache_paths(path))
+
+
+def install_cache(path, case, cache):
+    """
+    history: indexing runs on the earlier / the current content, then the FASTA holds the current content and
+    the three files carry the given time stamps.  Returns False when the file system did not keep the times.
+    """
+    used = {c[0] for c in (cache["fai"], cache["agp"]) if c is not None}
+    built = {}
+    if "old" in used:
+        built["old"] = indexing_run(path, G.FastaCase.from_spec(cache["old"]))
+    if "cur" in used:
+        built["cur"] = indexing_run(path, case)
+    G.remove_with_caches(path)
+    case.write(path)
+    t = cache["fasta_ns"]
+    os.utime(path, ns=(t, t))
+    ok = os.stat(path).st_mtime_ns == t
+    for i, (p, key) in enumerate(zip(cache_paths(path), ("fai", "agp"))):
+        c = cache[key]
+        if c is not None:
+            p.write_bytes(built[c[0]][i])
+            os.utime(p, ns=(t + c[1], t + c[1]))
+            ok = ok and os.stat(p).st_mtime_ns == t + c[1]
+    return ok
+
+
+def model_scaffolds(case):
+    """whole records forward and reversed, an inner interval, and a joined scaffold: rows over the current content"""
+    scs = []
+    for i, r in enumerate(case.records):
+        L = len(r.seq)
+        scs.append((f"f{i}", [["F", r.name, 1, L, 1]]))
+        scs.append((f"r{i}", [["F", r.name, 1, L, -1]]))
+        if L >= 3:
+            scs.append((f"m{i}", [["F", r.name, 2, L - 1, 0], ["G", 3, "scaffold"], ["F", r.name, (L + 1) // 2, L, -1]]))
+    return scs
+
+
+def check_cached_stream(tmp, case, cache, bs, line_length):
+    """-> (messages, number of loads that delivered an index); FastaIndex.auto_load twice, then FastaStream"""
+    path = pathlib.Path(tmp) / "in.fa"
+    try:
+        if not install_cache(path, case, cache):
+            return [], 0
+    except Exception as e:  # noqa: BLE001
+        return [f"an indexing run (FastaIndex.run_indexing) raised {e!r}"], 0
+    msgs = []
+    loads = 0
+    for which in ("", "second "):
+        # the second load finds whatever the first one left (time stamps of the real clock: newer than the FASTA)
+        fi = FastaIndex(path, bs)
+        try:
+            try:
+                fi.auto_load()
+            except Exception:  # noqa: BLE001
+                break  # failing loudly writes no FASTA
+            loads += 1
+            msgs = loaded_index_messages(fi, case, line_length)
+        finally:
+            close_index(fi)
+        if msgs:
+            msgs = [f"index files beside the FASTA ({describe_cache(cache)}): after the {which}FastaIndex.auto_load, {m}" for m in msgs]
+            break
+    G.remove_with_caches(path)
+    return msgs, loads
+
+
+def loaded_index_messages(fi, case, line_length):
+    """C03 over a loaded FastaIndex: rows taken from the model, and the assembly that came with the index"""
+    seqs = case.seqs()
+    names = [r.name for r in case.records]
+    msgs = ["rows of the current FASTA: " + m for m in stream_check(fi, seqs, model_scaffolds(case), line_length, True)]
+    asm = [(s.name, [row_spec(r) for r in s.rows]) for s in fi.assembly.scaffolds]
+    if [n for n, _ in asm] != names:
+        return [*msgs, f"the loaded assembly has scaffolds {[n for n, _ in asm][:6]}, the FASTA has records {names[:6]}"]
+    try:
+        for _, rows in asm:
+            G.apply_rows(seqs, rows)
+    except (ValueError, KeyError) as e:
+        return [*msgs, f"the loaded assembly has a row outside the current FASTA: {e}"]
+    return msgs + ["the loaded assembly: " + m for m in stream_check(fi, seqs, asm, line_length, True)]
+
+
+def run_cli_in_place(tmp, pretext_text, output="x.fa"):
+    """G.run_pretext_cli without writing in.fa: the FASTA and what lies beside it stay as prepared"""
+    from click.testing import CliRunner
+
+    from tola.assembly.scripts.pretext_to_asm import cli
+
+    tmp = pathlib.Path(tmp)
+    (tmp / "p.agp").write_text(pretext_text)
+    args = ["--assembly", str(tmp / "in.fa"), "--pretext", str(tmp / "p.agp"), "--log-level", "ERROR", "--no-write-log", "--output", str(tmp / output)]
+    try:
+        res = CliRunner().invoke(cli, args)
+    finally:
+        G.reset_logging_after_cli()
+    exc = res.exception
+    return {
+        "exit_code": res.exit_code,
+        "exception": None if exc is None or isinstance(exc, SystemExit) else repr(exc),
+        "files": {p.name: p.read_bytes() for p in sorted(tmp.iterdir()) if p.is_file()},
+    }
+
+
+def check_cli_cached(tmp, case, pretext_text, cache):
+    """pretext-to-asm on a FASTA with left-over index files -> (messages, number of FASTA records checked)"""
+    tmp = pathlib.Path(tmp)
+    try:
+        if not install_cache(tmp / "in.fa", case, cache):
+            return [], 0
+    except Exception as e:  # noqa: BLE001
+        return [f"an indexing run (FastaIndex.run_indexing) raised {e!r}"], 0
+    res = run_cli_in_place(tmp, pretext_text)
+    msgs, nrec = judge_cli(res, case)
+    if not msgs and res["exit_code"] != 0:
+        cold = tmp / "cold"
+        cold.mkdir()
+        try:
+            res0 = G.run_pretext_cli(cold, case.data(), pretext_text, output="x.fa")
+        finally:
+            shutil.rmtree(cold)
+        if res0["exit_code"] == 0 and not res0["exception"]:
+            msgs.append(f"pretext-to-asm exits {res['exit_code']} and writes no FASTA; on the same FASTA without index files beside it, it exits 0")
+    pre = f"index files beside the input FASTA ({describe_cache(cache)}): "
+    return [pre + m for m in msgs], nrec
+
+
+def rewrapped(case, width=None, eol=None):
+    return G.FastaCase(case.records, width or (80 if case.width != 80 else 60), eol or (b"\r\n" if case.eol == b"\n" else b"\n"), case.final_newline)
+
+
+def earlier_contents(case, rng=None):
+    """earlier contents of the same path, by kind; every one has at least the first record name in common"""
+    recs = case.records
+    first = recs[0]
+    out = {
+        # same sequences, other line width and terminator: only the .fai differs
+        "rewrapped": rewrapped(case),
+        # same sequences, same wrapping, first header 3 bytes longer: only the offsets differ
+        "header": G.FastaCase([G.Rec(first.name, first.seq, first.desc + b" v1"), *recs[1:]], case.width, case.eol, case.final_newline),
+        # sequences rotated among the names: other lengths and other runs
+        "content": G.FastaCase([G.Rec(r.name, recs[(i + 1) % len(recs)].seq[::-1] + b"NNGA", r.desc) for i, r in enumerate(recs)], case.width, case.eol, True),
+    }
+    if len(recs) > 1:
+        out["fewer"] = G.FastaCase([G.Rec(first.name, recs[-1].seq + first.seq, first.desc)], case.width, case.eol, True)
+    return out
+
+
+def cache_states(full):
+    """every (fai, agp) pair of absent / older / equal / newer x current / earlier content that is legitimate"""
+    one = [None]
+    for state in ("older", "equal", "newer"):
+        for delta in DELTA[state][: None if full else 2 if state == "older" else 1]:
+            for content in ("old", "cur"):
+                one.append([content, delta])
+    for fai in one:
+        for agp in one:
+            cache = {"fai": fai, "agp": agp}
+            if fai is None and agp is None:
+                continue
+            if legitimate(cache):
+                yield fai, agp
+
+
+# what the command finds beside its input in the quick tier: (fai, agp) as (content, state)
+CLI_CACHES = (
+    (("old", "equal"), ("old", "equal")),
+    (("old", "older"), ("old", "older")),
+    (("cur", "newer"), ("cur", "newer")),
+    (("old", "equal"), ("cur", "newer")),
+    (("cur", "newer"), ("old", "equal")),
+    (("old", "older"), ("cur", "newer")),
+    (("cur", "newer"), ("old", "older")),
+    (("old", "older"), ("old", "newer")),
+    (("old", "newer"), ("old", "older")),
+    (("old", "equal"), ("old", "newer")),
+    (("old", "newer"), ("old", "equal")),
+    (("cur", "equal"), ("cur", "equal")),
+)
+
+
 def run(tier, seed, **opts):
     rng = random.Random(seed)
     quick = tier == "quick"
@@ -146,6 +400,7 @@ def run(tier, seed, **opts):
         "(CLI: run exited 0 and wrote records)"
     )
     line_lengths_all = (1, 2, 3, 5, 7, 60)
+    all_states = list(cache_states(full=not quick))
     with G.quiet_logging(), G.workdir() as d:
         path = d / "t.fa"
         # ---- 1. single-row scaffolds, exhaustive intervals
@@ -276,6 +531,54 @@ def run(tier, seed, **opts):
             if msgs:
                 col.fail(msgs[0], inp)
             col.case(("cli", case.key(), ptxt), nontrivial=nrec > 0, sample=inp if k == 0 else None)
+            if big or msgs:
+                continue
+            # ---- 5. the same command, index files of an earlier run lying beside the input
+            earlier = earlier_contents(case)
+            kinds = sorted(earlier)
+            if quick or k % 2:
+                fai, agp = CLI_CACHES[k % len(CLI_CACHES)]
+                kind = kinds[(k // len(CLI_CACHES)) % len(kinds)]
+                fai, agp = ([c, DELTA[st][(k // 7) % 2 if st == "older" else 0]] for c, st in (fai, agp))
+            else:
+                fai, agp = rng.choice(all_states)
+                kind = rng.choice(kinds)
+            cache = {"fasta_ns": FASTA_NS, "old": earlier[kind].spec(), "fai": fai, "agp": agp}
+            sub.mkdir()
+            try:
+                msgs, nrec = check_cli_cached(sub, case, ptxt, cache)
+            finally:
+                shutil.rmtree(sub)
+            inp = {"kind": "cli", "case": case.spec(), "pretext": ptxt, "cache": cache}
+            if msgs:
+                col.fail(msgs[0], inp)
+            col.case(("cli", case.key(), ptxt, kind, repr((fai, agp))), nontrivial=nrec > 0, sample=inp if k == 0 else None)
+        # ---- 6. FastaIndex.auto_load + FastaStream with index files in every state beside the FASTA
+        cases = [base_case(3, b"\n", True), base_case(60, b"\r\n", True), base_case(5, b"\n", False)]
+        cases += [G.random_case(rng, max_len=150) for _ in range(2 if quick else 150)]
+        if not quick:
+            cases += [base_case(w, eol, fin) for w, eol, fin in G.layouts()]
+        sub = d / "cached"
+        sub.mkdir()
+        n = 0
+        for ci, case in enumerate(cases):
+            earlier = earlier_contents(case)
+            for ki, kind in enumerate(sorted(earlier)):
+                for fai, agp in all_states if not quick or ci < 3 else all_states[ci + ki :: 5]:
+                    if ki and "old" not in (fai and fai[0], agp and agp[0]):
+                        continue  # no file of the earlier content: the same scenario for every kind
+                    if col.full:
+                        break
+                    n += 1
+                    bs = (250_000, 1, case.width, 7)[n % 4]
+                    ll = (60, 60, 3, case.width)[(n // 4) % 4]
+                    cache = {"fasta_ns": FASTA_NS, "old": earlier[kind].spec(), "fai": fai, "agp": agp}
+                    msgs, loads = check_cached_stream(sub, case, cache, bs, ll)
+                    inp = {"kind": "cached-stream", "case": case.spec(), "cache": cache, "buffer": bs, "line_length": ll}
+                    if msgs:
+                        col.fail(msgs[0], inp)
+                    col.case(("cached", case.key(), kind, repr((fai, agp)), bs, ll), nontrivial=loads > 0, sample=inp if n == 30 else None)
+        shutil.rmtree(sub)
     return col.result(
         bounds=(
             "direct: records of 12/5/1 residues in 24 layouts, all intervals, 3 strands, buffers "
